@@ -1,12 +1,12 @@
 SPECIFICATION SSpec
 CONSTANTS
-  Vars = {"a", "b", "c", "d", "e", "f", "g"}
+  Vars = {"a", "b", "c", "d", "e", "f"}
   Fams = {"amo"}
   ClauseMax = 0
   AmoSeq = 0
-  AmoMax = 7
+  AmoMax = 6
   AmoPols = {0, 1}
-  HeuleKs = {2, 3, 4, 5}
+  HeuleKs = {2, 3, 4}
   PbShape = "raw"
   PbTerms = 0
   PbPols = {0, 1}
